@@ -133,7 +133,10 @@ def ensure(repo=REPO, variant="lib"):
             try:
                 olds = sorted((p for p in glob.glob(os.path.join(CACHE, "*")) if os.path.isdir(p) and not p.endswith(".tmp") and os.path.exists(os.path.join(p, "DONE"))), key=os.path.getmtime)
                 for old in olds[:-24]:
-                    shutil.rmtree(old, ignore_errors=True)
+                    # least recently *used* first (every use touches the directory); never one used in the
+                    # last 20 minutes — a concurrent check may still be reading it
+                    if time.time() - os.path.getmtime(old) > 1200:
+                        shutil.rmtree(old, ignore_errors=True)
                 for lf in glob.glob(os.path.join(CACHE, ".lock-*")):
                     if time.time() - os.path.getmtime(lf) > 3600 and not lf.endswith(key):
                         try:
@@ -148,6 +151,11 @@ def ensure(repo=REPO, variant="lib"):
             export(repo, tmp, all_targets=(variant == "all"), release=(variant == "release"))
             open(os.path.join(tmp, "DONE"), "w").write(key)
             os.rename(tmp, d)
+        else:
+            try:
+                os.utime(d)
+            except OSError:
+                pass
     finally:
         fcntl.flock(lock, fcntl.LOCK_UN)
         lock.close()
